@@ -181,7 +181,8 @@ def build_obligation(prop, cfg, db, fn, contract, replace_contracts=None):
     for cn, c in replace_contracts.items():
         contracts[cn] = {'clauses': c.clauses()}
     text, externs, missing = tu.assemble(db, fn['cname'], contracts, replace=set(replace_contracts), harness=harness_for(fn, contract, prop),
-                                         includes=MODEL_INCLUDES, spec_includes=SPEC_INCLUDES, model_text=model_text)
+                                         includes=MODEL_INCLUDES, spec_includes=SPEC_INCLUDES, model_text=model_text,
+                                         extra_roots=getattr(contract, 'extra_roots', ()))
     ob = Obligation(prop, cfg, fn, contract, text, externs, set(replace_contracts))
     ob.missing_models = missing
     return ob
@@ -304,7 +305,7 @@ def _worker(args):
     # traces can be large: keep only the failing properties' traces, trimmed to harness-level assignments
     for p in r['props']:
         if 'trace' in p:
-            p['inputs'] = extract_inputs(p['trace'])
+            p['inputs'] = extract_inputs(p['trace'], cname)
             p['trace_tail'] = trim_trace(p['trace'])
             del p['trace']
     shutil.rmtree(workdir, ignore_errors=True)
@@ -323,13 +324,13 @@ def _val(v):
     return {'data': v.get('data')}
 
 
-def extract_inputs(trace):
+def extract_inputs(trace, root=None):
     """values of the harness variables (a0.., self_obj, rounding mode) at the time of the call"""
     vals = {}
     for st in trace:
         if st.get('stepType') == 'function-call':
             fn = st.get('function', {}).get('displayName', '')
-            if fn.startswith('F_Z') or fn.startswith('__CPROVER_contracts_') or fn.startswith('wrapped'):
+            if (root and root in fn) or (not root and fn.startswith('F_Z')):
                 break
         if st.get('stepType') != 'assignment':
             continue
